@@ -21,8 +21,12 @@
 (*     signable_builder/cardano_database.rs  compute_protocol_message      *)
 (*                                                                         *)
 (* Every node has its own disk and its own digest cache.  A disk is        *)
-(*   imm    partial function  ImmNames -> content id : the files           *)
+(*   imm    partial function  ImmNames -> content id : the REGULAR files   *)
 (*          <db>/immutable/NNNNN.ext  (any subset, trios may be partial)   *)
+(*   nonreg partial function  ImmNames -> [k, cid]  (names not in imm):    *)
+(*          what else sits under an immutable file name: a directory       *)
+(*          (k = "dir"), a symbolic link to nothing ("dangling"), a        *)
+(*          symbolic link to a regular file of content cid ("link")        *)
 (*   other  set of placements of files the digest has to ignore            *)
 (*   bad    a file  <db>/immutable/abc.chunk  (immutable extension,        *)
 (*          non-numeric stem) is present                                   *)
@@ -31,6 +35,19 @@
 (*          before / after "immutable" in the order readdir returns the    *)
 (*          children of <db>  (decided by the file system, not the node)   *)
 (*   entry  the path handed to the digester: <db> or <db>/immutable        *)
+(*                                                                         *)
+(* Every node runs two long-lived digester objects (CardanoImmutableDigester*)
+(* instances): one built without cache provider (`None`), one built with   *)
+(* the JSON provider over the node's cache file.  They live across         *)
+(* computations; a Restart drops and re-creates them (the cache file       *)
+(* stays).  Between two computations the files of the node may change on   *)
+(* disk (Perturb).                                                         *)
+(*   cache[n]    content of the node's cache file: file name -> digest     *)
+(*   inst[n]     what the cache-less instance remembers between            *)
+(*               computations: file name -> digest.  The code remembers    *)
+(*               nothing (InstanceMemory = FALSE).                         *)
+(*   tainted[n]  names whose file changed on disk after a cached           *)
+(*               computation digested it                                   *)
 (***************************************************************************)
 EXTENDS CardanoDb
 
@@ -39,8 +56,11 @@ CONSTANTS
     MaxCid,                  \* content ids 0 .. MaxCid, 0 is the empty file
     Nodes,
     FindPrefersDirectChild,  \* FALSE: find_immutables_dir as it is; TRUE: proposed fix
-    ExcuseDecoy              \* TRUE: results computed over a decoy directory are excused
+    ExcuseDecoy,             \* TRUE: results computed over a decoy directory are excused
                              \*       (KNOWN_FINDINGS C12-nested-immutable-dir)
+    InstanceMemory           \* FALSE: a digester built without cache provider keeps nothing between
+                             \*        computations (the code); TRUE: it keeps the digests it computed
+                             \*        (what the property forbids; used to show the model sees it)
 
 Nums     == 0 .. (MaxNum + 1)
 ImmNames == [num : Nums, ext : ImmExt]
@@ -56,9 +76,23 @@ OtherKinds == {"imm_txt",       \* <db>/immutable/README.txt
                "ledger",        \* <db>/ledger/4242
                "volatile"}      \* <db>/volatile/blocks-0.dat
 
-VARIABLES disk, cache, results, steps
-vars == <<disk, cache, results, steps>>
+VARIABLES disk, cache, inst, tainted, results, steps
+vars == <<disk, cache, inst, tainted, results, steps>>
 
+-----------------------------------------------------------------------------
+(* What the property talks about.                                           *)
+
+(* names and contents of the immutable files numbered up to the beacon (of the range).   *)
+(* A directory or a dangling link under an immutable file name is no file.  Whether a    *)
+(* symbolic link to a regular file is an immutable file with that content or just        *)
+(* another directory entry is not decided by the property: such an entry is kept apart   *)
+(* (kind "link"), so a node holding one is only compared with nodes holding the same.    *)
+CoveredIn(d, lo, hi) ==
+    {[name |-> n, cid |-> d.imm[n], kind |-> "reg"] :
+        n \in {m \in DOMAIN d.imm : lo <= m.num /\ m.num <= hi}}
+    \cup {[name |-> n, cid |-> d.nonreg[n].cid, kind |-> "link"] :
+        n \in {m \in DOMAIN d.nonreg : d.nonreg[m].k = "link" /\ lo <= m.num /\ m.num <= hi}}
+Covered(d, b) == CoveredIn(d, 0, b)
 -----------------------------------------------------------------------------
 (* The code.                                                                *)
 
@@ -73,7 +107,8 @@ FilesOf(d, which) ==
     IF which = "real" THEN d.imm ELSE [n \in DOMAIN d.imm |-> DecoyCid]
 
 (* ImmutableFile::list_all_in_dir: depth-1 entries that are files with an     *)
-(* immutable extension (every OtherKind is filtered here), each parsed        *)
+(* immutable extension (every OtherKind is filtered here, and so is every     *)
+(* nonreg entry: file_type().is_file() without following links), each parsed  *)
 (* (a non-numeric stem is an error), then sorted by (number, path)            *)
 ListAll(d) ==
     LET w == FoundDir(d) IN
@@ -133,37 +168,75 @@ RangeOutcomeOf(d, cm, lo, hi, useCache) ==
          [ok |-> TRUE, root |-> <<"digests", [i \in DOMAIN tp.files |-> <<tp.files[i], r.digs[i]>>]>>,
           newc |-> r.newc]
 
-(* one step of a history: [op ("tree" | "range"), lo, hi, cache]; for "tree" hi is the beacon *)
-StepOutcome(d, cm, st) ==
-    IF st.op = "tree" THEN OutcomeOf(d, cm, st.hi, st.cache)
-    ELSE RangeOutcomeOf(d, cm, st.lo, st.hi, st.cache)
+(* The memory a computation reads and writes: the cache file through the instance built   *)
+(* with the provider, else what the cache-less instance keeps (nothing, in the code)       *)
+Memory(cm, im, useCache) == IF useCache THEN cm ELSE IF InstanceMemory THEN im ELSE <<>>
+Consults(useCache)       == useCache \/ InstanceMemory
 
-Outcome(node, b, useCache) == OutcomeOf(disk[node], cache[node], b, useCache)
+(* one computing step of a history: [op ("tree" | "range"), lo, hi, cache, ...]; for       *)
+(* "tree" hi is the beacon                                                                 *)
+StepOutcome(d, cm, im, st) ==
+    LET m == Memory(cm, im, st.cache) IN
+    IF st.op = "tree" THEN OutcomeOf(d, m, st.hi, Consults(st.cache))
+    ELSE RangeOutcomeOf(d, m, st.lo, st.hi, Consults(st.cache))
 
-Record(node, op, lo, hi, useCache, o) ==
-    /\ results' = results \cup {[node |-> node, op |-> op, lo |-> lo, beacon |-> hi, cache |-> useCache,
-                                 ok |-> o.ok, root |-> o.root]}
-    /\ cache' = [cache EXCEPT ![node] = o.newc]
+(* the regular files the step digests *)
+Processed(d, st) ==
+    LET tp == IF st.op = "tree" THEN ToProcess(d, st.hi) ELSE ToProcessRange(d, st.lo, st.hi)
+    IN  IF tp.ok /\ tp.src = "real" THEN Range(tp.files) ELSE {}
+
+Record(node, st) ==
+    LET d == disk[node]
+        o == StepOutcome(d, cache[node], inst[node], st)
+    IN
+    /\ results' = results \cup
+          {[node |-> node, op |-> st.op, lo |-> st.lo, beacon |-> st.hi, cache |-> st.cache,
+            ok |-> o.ok, root |-> o.root,
+            covered |-> CoveredIn(d, st.lo, st.hi),                    \* the files as they are now
+            excused |-> ExcuseDecoy /\ d.decoy = "first" /\ d.entry = "db",
+            stale |-> st.cache /\ Processed(d, st) \cap tainted[node] # {}]}
+    /\ cache' = IF st.cache THEN [cache EXCEPT ![node] = o.newc] ELSE cache
+    /\ inst'  = IF ~st.cache /\ InstanceMemory THEN [inst EXCEPT ![node] = o.newc] ELSE inst
     /\ steps' = steps + 1
-    /\ UNCHANGED disk
+    /\ UNCHANGED <<disk, tainted>>
 
 Compute(node, b, useCache) ==
-    Record(node, "tree", 0, b, useCache, Outcome(node, b, useCache))
+    Record(node, [op |-> "tree", lo |-> 0, hi |-> b, cache |-> useCache])
 
 ComputeRange(node, lo, hi, useCache) ==
-    Record(node, "range", lo, hi, useCache, RangeOutcomeOf(disk[node], cache[node], lo, hi, useCache))
+    Record(node, [op |-> "range", lo |-> lo, hi |-> hi, cache |-> useCache])
+
+(* the files change on disk between two computations: the content of file n becomes c    *)
+(* (a byte changed, another file's content copied over it, a new file n), or n is removed *)
+(* (c = -1)                                                                               *)
+Perturb(node, n, c) ==
+    /\ n \notin DOMAIN disk[node].nonreg
+    /\ IF c = -1 THEN n \in DOMAIN disk[node].imm
+       ELSE IF n \in DOMAIN disk[node].imm THEN disk[node].imm[n] # c ELSE TRUE
+    /\ disk' = [disk EXCEPT ![node].imm =
+                    IF c = -1 THEN [m \in DOMAIN @ \ {n} |-> @[m]]
+                    ELSE [m \in DOMAIN @ \cup {n} |-> IF m = n THEN c ELSE @[m]]]
+    /\ tainted' = [tainted EXCEPT ![node] = @ \cup ({n} \cap DOMAIN cache[node])]
+    /\ steps' = steps + 1
+    /\ UNCHANGED <<cache, inst, results>>
+
+(* the digester objects are dropped and built again; the cache file stays *)
+Restart(node) ==
+    /\ inst' = [inst EXCEPT ![node] = <<>>]
+    /\ steps' = steps + 1
+    /\ UNCHANGED <<disk, cache, tainted, results>>
 
 -----------------------------------------------------------------------------
 (* The property (C12), independent of the code.                             *)
 
-(* names and contents of the immutable files numbered up to the beacon (of the range) *)
-CoveredIn(d, lo, hi) == {[name |-> n, cid |-> d.imm[n]] :
-                            n \in {m \in DOMAIN d.imm : lo <= m.num /\ m.num <= hi}}
-Covered(d, b) == CoveredIn(d, 0, b)
-CoveredOf(r)  == CoveredIn(disk[r.node], r.lo, r.beacon)
+CoveredOf(r)  == r.covered
+Ambiguous(S)  == \E x \in S : x.kind = "link"
 
-Excused(r) == ExcuseDecoy /\ disk[r.node].decoy = "first" /\ disk[r.node].entry = "db"
-Judged     == {r \in results : r.ok /\ ~Excused(r)}
+(* A result is judged unless it is excused by a listed finding or comes from an explicit  *)
+(* cache that holds the digest of a file changed since (the statement promises cache      *)
+(* independence over the same unchanged files only; a cache-less digester is always       *)
+(* judged, whatever happened to the files before).                                        *)
+Judged     == {r \in results : r.ok /\ ~r.excused /\ ~r.stale}
 
 (* the root (the digests of a range) is a function of the covered files only: whatever  *)
 (* the layout, other files, files beyond the beacon, cache history                      *)
@@ -175,6 +248,8 @@ Determined == \A r, s \in Judged :
 NamesOf(S)     == {x.name : x \in S}
 Perturbs(S, T) == S # T /\ NamesOf(T) \subseteq NamesOf(S)
 Sensitive  == \A r, s \in Judged :
-                 r.op = s.op /\ ~r.cache /\ ~s.cache /\ Perturbs(CoveredOf(r), CoveredOf(s))
+                 ( /\ r.op = s.op /\ ~r.cache /\ ~s.cache
+                   /\ ~Ambiguous(CoveredOf(r)) /\ ~Ambiguous(CoveredOf(s))
+                   /\ Perturbs(CoveredOf(r), CoveredOf(s)) )
                     => r.root # s.root
 =============================================================================
